@@ -3,6 +3,7 @@
 package raft
 
 import (
+	"context"
 	"encoding/json"
 	"fmt"
 	"io/ioutil"
@@ -236,6 +237,66 @@ func identMain(args []string) int {
 	}
 	dist["lock/rounds"] = locks
 
+	// ---- Serve: a directory being served refuses every other Serve / SetIdentity, for as long as it is served
+	for round := 0; round < 3; round++ {
+		dir := filepath.Join(base, fmt.Sprintf("v%d", round))
+		_ = os.MkdirAll(dir, 0700)
+		if err := SetIdentity(dir, 5, 1); err != nil {
+			findings = append(findings, "C20|serve-setup|"+err.Error())
+			continue
+		}
+		a, err := New(simOptions(1024), &simFSM{}, dir)
+		if err != nil {
+			findings = append(findings, "C20|serve-setup|"+err.Error())
+			continue
+		}
+		la := newBlockedListener()
+		aDone := make(chan error, 1)
+		go func() { aDone <- a.Serve(la) }()
+		deadline := time.Now().Add(5 * time.Second)
+		for time.Now().Before(deadline) {
+			if _, err := os.Stat(filepath.Join(dir, "lock")); err == nil {
+				break
+			}
+			time.Sleep(time.Millisecond)
+		}
+		for attempt := 0; attempt < 3; attempt++ {
+			b, err := New(simOptions(1024), &simFSM{}, dir)
+			if err != nil {
+				findings = append(findings, "C20|serve-setup|second New: "+err.Error())
+				break
+			}
+			lb := newBlockedListener()
+			bDone := make(chan error, 1)
+			go func() { bDone <- b.Serve(lb) }()
+			select {
+			case err := <-bDone:
+				if err != ErrLockExists {
+					findings = append(findings, fmt.Sprintf("C20|second-serve-not-refused|attempt %d: Serve on a served directory returned %v", attempt, err))
+				}
+			case <-time.After(2 * time.Second):
+				findings = append(findings, fmt.Sprintf("C20|second-serve-not-refused|attempt %d: a second instance is serving the same directory", attempt))
+				_ = b.Shutdown(context.Background())
+				<-bDone
+			}
+			_ = lb.Close()
+			_ = b.log.Close()
+			if err := SetIdentity(dir, 5, 1); err != ErrLockExists {
+				findings = append(findings, fmt.Sprintf("C20|lock-lost|attempt %d: SetIdentity on a served directory returned %v", attempt, err))
+			}
+			if _, err := os.Stat(filepath.Join(dir, "lock")); err != nil {
+				findings = append(findings, fmt.Sprintf("C20|lock-lost|attempt %d: the serving instance's lock file is gone", attempt))
+			}
+		}
+		_ = a.Shutdown(context.Background())
+		<-aDone
+		_ = la.Close()
+		if _, err := os.Stat(filepath.Join(dir, "lock")); err == nil {
+			findings = append(findings, "C20|lock-left-behind|Serve returned but the lock file is still there")
+		}
+		dist["serve/rounds"]++
+	}
+
 	var sb strings.Builder
 	sb.WriteString("From Coq Require Import List NArith.\nFrom Verif Require Import Ident.Ident Ident.Cases.\nImport ListNotations.\nOpen Scope N_scope.\n")
 	sb.WriteString("Definition cases : list icase := [\n" + strings.Join(cases, ";\n") + "].\nDefinition M := Eval vm_compute in mismatches cases.\nPrint M.\n")
@@ -251,3 +312,17 @@ func identMain(args []string) int {
 	_ = ioutil.WriteFile(filepath.Join(out, "ident_meta.json"), mb, 0644)
 	return 0
 }
+
+// blockedListener: a net.Listener on which nobody ever connects.
+type blockedListener struct {
+	ch   chan struct{}
+	once sync.Once
+}
+
+func newBlockedListener() *blockedListener { return &blockedListener{ch: make(chan struct{})} }
+func (l *blockedListener) Accept() (net.Conn, error) {
+	<-l.ch
+	return nil, fmt.Errorf("listener closed")
+}
+func (l *blockedListener) Close() error   { l.once.Do(func() { close(l.ch) }); return nil }
+func (l *blockedListener) Addr() net.Addr { return simAddr{} }
